@@ -1553,13 +1553,16 @@ class Engine(ExprEval, NumpyModel, NumpyFuncs):
 
     def setup_params(self, st, c: Contract, scope: dict):
         """Create symbolic values for all params of the contract (dotted names populate object fields)."""
-        names = sorted(c.params, key=lambda n: n.count("."))
+        names = sorted(c.params, key=lambda n: (parse_type(c.params[n]).base == "alias", n.count(".")))
         for pname in names:
             ts = parse_type(c.params[pname])
             if "." in pname:
                 base, _, fld = pname.rpartition(".")
                 o = self.resolve_dotted(st, scope, base)
-                v = self.make_value(st, ts, pname.replace(".", "_"), scope)
+                if ts.base == "alias":
+                    v = self.resolve_dotted(st, scope, ts.cls)
+                else:
+                    v = self.make_value(st, ts, pname.replace(".", "_"), scope)
                 st.heap[o.oid][fld] = v
             else:
                 scope[pname] = self.make_value(st, ts, pname, scope)
@@ -1587,6 +1590,8 @@ class Engine(ExprEval, NumpyModel, NumpyFuncs):
                     v = st.heap[o.oid][fld]
                 if not static_matches(ts, v, self.repo):
                     raise Unsupported(f"field {pname} does not statically match {c.params[pname]} ({v!r})")
+                if ts.base == "alias" and v is not self.resolve_dotted(st, scope, ts.cls):
+                    raise Unsupported(f"field {pname} is not the same object as {ts.cls} (the contract is stated for the aliased configuration)")
             else:
                 v = bound[pname]
                 scope[pname] = v
